@@ -192,6 +192,7 @@ TFault ==
      /\ st' \in (CASE r.kind = "cutsrc"  -> CutSrc(st, r.e)
                    [] r.kind = "endsrc"  -> EndSrc(st, r.e)
                    [] r.kind = "cutsink" -> CutSink(st, r.e)
+                   [] r.kind = "softcut" -> SoftCutSink(st, r.e)
                    [] OTHER -> {})
      /\ UNCHANGED hm
 
